@@ -1,4 +1,5 @@
 import OpcuaModel.Model.CodecSafe
+import OpcuaModel.Model.CodecMono
 import OpcuaModel.Gen.Types
 /-
   C02 — decoding arbitrary bytes is safe: no panic, no hang, bounded memory.
@@ -45,6 +46,14 @@ theorem C02_safe (limit : Option Nat) (fuel : Nat) (t : Ty) (b : Bytes) (a : Nat
   | fail f =>
     rw [h] at this
     rcases this with rfl | rfl | rfl <;> rfl
+
+/-- **The depth budget is monotone.**  Whatever the decoder returns within call depth `fuel` (a value, an error, an
+    exceeded allocation budget) it returns with every larger depth: only the outcome `depth` depends on the budget,
+    so "the result of decoding" is well defined as the result at any sufficient depth. -/
+theorem C02_depth_monotone (limit : Option Nat) (fuel k : Nat) (t : Ty) (b : Bytes) (a : Nat)
+    (h : decode (env limit) fuel t ⟨b, a⟩ ≠ .fail .depth) :
+    decode (env limit) (fuel + k) t ⟨b, a⟩ = decode (env limit) fuel t ⟨b, a⟩ :=
+  decode_mono (env limit) fuel k t ⟨b, a⟩ h
 
 /-- the decoder model is a total function and the budgets are the only non-structural exits: without a
     call-depth problem the result does not depend on which larger budget is given — stated for the entry
@@ -129,6 +138,21 @@ theorem C02_dims_request_bounded (e : Env) (dl : Nat) (s s' : St) (r : Option (L
 theorem C02_finding_variant_array_amplification :
     decode (env (some 131069)) 3 .variant ⟨[0x98, 0xff,0xff,0,0, 0x98, 0xff,0xff,0,0], 0⟩ = .fail .alloc ∧
     decode (env (some 131070)) 3 .variant ⟨[0x98, 0xff,0xff,0,0, 0x98, 0xff,0xff,0,0], 0⟩ = .fail .err := ⟨rfl, rfl⟩
+
+/-- a Variant of `n` one-byte elements with the `k` dimensions [n, 1, …, 1] (exact product, so it passes every check) -/
+def dimsDepthInput (n k : Nat) : Bytes :=
+  [0xc3] ++ leBytes 4 n ++ List.replicate n 7 ++ leBytes 4 k ++ leBytes 4 n ++ (List.replicate (k - 1) (leBytes 4 1)).flatten
+
+/-- `split` builds one row per element on every level: for dimensions [n, 1, …, 1] it requests about n·k rows
+    (plus n elements and k dimensions) — quadratic in the input.  3 elements with 4 dimensions (28 bytes): 16 elements
+    requested; 24 elements with 24 dimensions (129 bytes): more than 576.  On the real code 20 kB take 41 s and
+    allocate 1.1 GB. -/
+theorem C02_finding_variant_dims_depth :
+    failIs (decode (env (some 15)) 2 .variant ⟨dimsDepthInput 3 4, 0⟩) .alloc = true ∧
+    failIs (decode (env (some 16)) 2 .variant ⟨dimsDepthInput 3 4, 0⟩) .alloc = false ∧
+    (dimsDepthInput 24 24).length = 129 ∧
+    failIs (decode (env (some 576)) 2 .variant ⟨dimsDepthInput 24 24, 0⟩) .alloc = true := by
+  decide +kernel
 
 /-- nesting is not bounded: `n` bytes 0x18 (a Variant holding a Variant holding …) need call depth above `n`,
     for every `n` — megabytes of them overflow the Go stack (fatal, not recoverable) -/
